@@ -37,6 +37,8 @@ mod index;
 pub mod path;
 pub mod sections_builder;
 mod squash_iter;
+#[cfg(feature = "verif-hooks")]
+pub mod verif;
 
 #[derive(Clone, Default)]
 pub struct Graph {
@@ -175,6 +177,9 @@ impl Graph {
 
     pub fn build_key_from_iter<'b>(&mut self, key: &Key, iter: impl NodeIter<'b>) {
         self.build_key(key).insert_from_iter(iter);
+
+        #[cfg(feature = "verif-hooks")]
+        verif::emit(self, "build_key_from_iter");
     }
 
     pub fn builder(&mut self, id: NodeId) -> GraphBuilder {
@@ -201,6 +206,9 @@ impl Graph {
         let mut index = RefIndex::new();
         index.index_node(self, id);
         self.index.merge(index);
+
+        #[cfg(feature = "verif-hooks")]
+        verif::emit(self, "build_key_and");
 
         self
     }
@@ -250,9 +258,15 @@ impl Graph {
 
         self.extract_ref_text(&key)
             .map(|text| self.keys_to_ref_text.insert(key, text));
+
+        #[cfg(feature = "verif-hooks")]
+        verif::emit(self, "from_markdown");
     }
 
     pub fn to_markdown(&self, key: &Key) -> String {
+        #[cfg(feature = "verif-hooks")]
+        verif::emit(self, "to_markdown");
+
         let markdown = self
             .collect(key)
             .iter()
@@ -326,6 +340,10 @@ impl Graph {
                 .extract_ref_text(&key)
                 .map(|text| graph.keys_to_ref_text.insert(key.clone(), text));
         }
+
+        #[cfg(feature = "verif-hooks")]
+        verif::emit(&graph, "import");
+
         graph
     }
 
@@ -515,6 +533,8 @@ impl GraphContext for &Graph {
             let key = Alphanumeric
                 .sample_string(&mut rand::thread_rng(), 8)
                 .to_lowercase();
+            #[cfg(feature = "verif-hooks")]
+            let key = verif::next_key_candidate().unwrap_or(key);
             if !self
                 .keys
                 .contains_key(&Key::from_rel_link_url(&key, relative_to))
